@@ -142,7 +142,12 @@ def report(pid, tier, seed, P, mod, gens, meta, errors, t_start, args, jobs):
     canaries = [m for m in meta if m["kind"] == "canary"]
     real = [m for m in meta if m["kind"] != "canary"]
     failed = [m for m in real if m["verdict"] != m["expect"]]
-    vacuous = [m for m in canaries if m["verdict"] == "unsat"]
+    # a task is vacuous when the hypotheses are unsatisfiable on *every* entry path (argument builders may fork; a path excluded by
+    # the contract's requires is not vacuity)
+    by_task = {}
+    for m in canaries:
+        by_task.setdefault(m["task"], []).append(m)
+    vacuous = [ms[0] for ms in by_task.values() if all(m["verdict"] == "unsat" for m in ms)]
     rc = 0
     lines = []
     engine_witness = []
